@@ -59,6 +59,51 @@ theorem first_copies_in_submission_order (cfg : Cfg) (s : State) (hr : Reachable
   obtain ⟨y', hy', -, hm⟩ := inversion_is_a_repeated_copy cfg s hr tp l1 x l2 hl y hy hlt
   exact hfirst y' hy' hm
 
+/-! ### an attempt the Writer has given up is never delivered late -/
+
+/-- **broker_decides_only_in_flight_attempts** — the broker can append (or reject) a batch only while the sender holds
+that batch in an attempt that has no decision yet. -/
+theorem broker_decides_only_in_flight_attempts (cfg : Cfg) (s s' : State) (pw : Nat) (tp : TP) (msgs : List Msg) (out : BrOut)
+    (hs : step cfg s (.produce pw tp msgs out) = some s') :
+    ∃ P b k, s.pws pw = some P ∧ P.sender = .attempting b k none := by
+  simp only [step, stepProduce] at hs
+  repeat' split at hs
+  all_goals (first | (cases hs; done) | skip)
+  rename_i _ P hP _ b k hsend _ B hB hg
+  exact ⟨P, b, k, hP, hsend⟩
+
+/-- **abandoned_attempt_never_applied** — once an attempt has ended on the client (with an acknowledgement, an error
+code, or by giving up at WriteTimeout), no produce request of that partition writer can reach the log until the NEXT
+attempt is started: a request the Writer has abandoned is not delivered behind its back — not after the retry, not
+after a later batch.  (On the wire this needs the connection of the abandoned request to be cut off in both
+directions: `attempt_cut_off_at_the_socket`.) -/
+theorem abandoned_attempt_never_applied (cfg : Cfg) (s s' : State) (pw b k : Nat) (code : Code)
+    (hs : step cfg s (.attemptDone pw b k code) = some s') (tp : TP) (msgs : List Msg) (out : BrOut) :
+    step cfg s' (.produce pw tp msgs out) = none := by
+  simp only [step] at hs
+  repeat' split at hs
+  all_goals (first | (cases hs; done) | skip)
+  rename_i _ P hP _ b' k' br hsend hg
+  cases hs
+  have hne : ∀ x y, afterAttempt cfg b k code ≠ Sender.attempting x y none := by
+    intro x y h
+    unfold afterAttempt at h
+    repeat' split at h
+    all_goals cases h
+  simp only [step, stepProduce, upd_same]
+  all_goals
+    split
+    · rename_i heq
+      exact absurd heq (hne _ _)
+    · rfl
+
+/-- **attempt_cut_off_at_the_socket** — in the source as it stands the Transport applies the request deadline (the
+Writer's WriteTimeout) to the connection in both directions: an attempt abandoned while its request is still being
+written is cut off, the rest of the request never arrives (regenerated on every run from transport.go). -/
+theorem attempt_cut_off_at_the_socket :
+    Gen.roundTripDeadlineSetters.contains "SetDeadline" = true ∨ Gen.roundTripDeadlineSetters.contains "SetWriteDeadline" = true := by
+  decide
+
 /-- **batch_internal_order** — inside a batch the messages are in submission order (so each copy is, too). -/
 theorem batch_internal_order (cfg : Cfg) (s : State) (hr : Reachable cfg s) (b : Nat) (B : Batch)
     (hB : s.batches b = some B) : B.msgs.Pairwise (fun m m' => m.seq < m'.seq) :=
